@@ -7,6 +7,24 @@ BASELINE_OFF = ("cd /repo && go test -mod=mod -vet=off -count=1 -timeout 25m ./.
 
 # id -> (engine, category, level text, level note, technique, design ref)
 CHECKS = {
+ "C01": ("ingest", "model_checking",
+         "TLC checks on Ingest.tla/IngestGen.tla that the design of the external sort (spill, k-way merge, dedupe against NO previous key, "
+         "block cut) meets the losslessness contract for every input of <=4 (quick) / <=5 (thorough) rows over 8 abstract rows x 5 key shapes "
+         "x 3 run sizes; every such scenario, padded so that its rows straddle a real 255-row block boundary, is ingested by the real "
+         "sorter+inserter and the stored rows are compared with the expectation TLC exported; seeded real-scale tables (awkward cells, "
+         "duplicate keys at block boundaries, 65535-byte cells, rows > 64 KiB, oversize cells, delimiters, run sizes) are ingested and "
+         "the projected events validated by TLC against TraceIngest.tla.",
+         "encoding/csv trusted; cell contents sampled from an awkward-content table + seeded random bytes; CLI path covered by the System engine",
+         "TLA+ spec Ingest.tla; TLC-enumerated scenarios replayed into pkg/sorter+pkg/ingest; TLC trace validation (TraceIngest.tla) of real-scale ingests",
+         "DESIGN.md 5/C01"),
+ "C03": ("ingest", "model_checking",
+         "Objects!TableWellFormed (row count, block sizes, strictly ascending keys, exact block indices, table index = first key per block, "
+         "doctor clean) is evaluated by TLC with B=255 on the projection of every real table stored by the producers: ~7,000 padded "
+         "small-universe ingests and seeded real-scale ingests at boundary sizes 0,1,254..257,509..512,764..766 under run sizes, "
+         "delimiters and 1..16 workers (TraceTable.tla); further producers (merge, receive, doctor) add observations as their engines run.",
+         "hash function and string-list encoding of the repository are trusted for recomputing key/row hashes",
+         "TLA+ spec Objects.tla; TLC trace validation (TraceTable.tla) of projections of real stored tables",
+         "DESIGN.md 5/C03"),
  "C15": ("refs", "model_checking",
          "TLC explores the ref-store specification (Refs.tla) exhaustively over an alphabet of names with '_', '%', case variants "
          "and nested prefixes; every transition of the model's state graph is replayed on the real SQL ref store with return value "
